@@ -465,6 +465,18 @@ class Executor:
     # ----------------------------------------------------------- attributes
     def getattr(self, v, name, frame=None):
         if isinstance(v, Obj):
+            # a data descriptor of the class (defines __set__) takes
+            # precedence over the instance dictionary, as in Python
+            if name in v.fields:
+                o_, raw_ = self.find_method(v.cls, name)
+                if o_ is not None and hasattr(type(raw_), "__get__") and hasattr(type(raw_), "__set__") \
+                        and type(raw_).__module__.startswith("ebpfcat") and not isinstance(raw_, property):
+                    hook = self.opt.get("descriptor_get")
+                    r = hook(self, v, name, raw_) if hook is not None else NotImplemented
+                    if r is not NotImplemented:
+                        return r
+                    o, g = self.find_method(type(raw_), "__get__")
+                    return self.call(self.as_func(g, o), [raw_, v, v.cls], {}, frame)
             if name in v.fields:
                 val = v.fields[name]
                 if val is Unbound:
